@@ -34,6 +34,8 @@ of its clauses have parts that are closed-form code and table agreement; only th
                or lm + lg) over the phase's reaction and SI is IAP - lk
   C01.readout  "log a = log m + log gamma", activity = 10^(log activity), gamma = 10^(log gamma), SR = 10^SI, pH = -log a(H+):
                the paired BASIC read-out functions and the pH writers agree as exact rational functions of the species fields
+  C01.rewrite  rewriting of a reaction to the model's master species: the couple selected for a rewritten secondary master replaces
+               exactly (token coefficient) x coef_e electrons, in every branch of write_mass_action_eqn_x (polynomial identity)
 Not decided: everything that depends on the numerical solution (mass action per species, element totals, charge balance, ionic
 strength, alkalinity), the rewriting of reactions to master species, delta_h unit conversion.
 """
@@ -132,7 +134,81 @@ def leaf_name(n):
     return f
 
 
+def rewrite_rule(P, R):
+    """Rewriting a mass-action equation to the master species of the model (write_mass_action_eqn_x): a token that is a rewritten
+    secondary master (Fe+3 when total Fe is entered) is replaced by its defining reaction times the token's coefficient c, and the
+    e- that reaction brings - c * coef_e of them - by the redox couple selected for the element.  Stoichiometry requires that every
+    addition of the couple's reaction carries exactly c * coef_e (as a polynomial identity in the code's own symbols): with another
+    multiplier only part of the electrons is replaced and polynuclear species / multi-atom phases (Fe2(OH)2+4, Hematite) violate
+    their database mass-action equation whenever the couple's pe differs from the solution pe."""
+    from .. import ratfun as RF
+    RULE = "C01.rewrite"
+    R.rule(RULE, "write_mass_action_eqn_x: the redox couple replaces exactly c * coef_e electrons of a rewritten secondary master (every branch)", minimum=3)
+    f = P.one("Phreeqc::write_mass_action_eqn_x")
+    where = dict(file=f["file"], function=f["q"])
+    blk = None
+    for x in T.walk(f["body"]):
+        if x[0] == "If" and any(y[0] == "Member" and y[2] == "master::in" for y in T.walk(x[2])) and any(T.callee_name(c) == "rxn_find_coef" for c in T.calls(x[3])):
+            blk = x
+    if blk is None:
+        R.anchor_missing(RULE, "write_mass_action_eqn_x: the REWRITE block (rxn_find_coef of e-) not found")
+        return
+
+    def sym(n):
+        n = T.strip_casts(n)
+        if n[0] == "Ref" and n[2] in ("local", "param"):
+            return n[3]
+        return T.text(n).replace(" ", "")
+
+    def conv(n):
+        n = T.strip_casts(n)
+        if n[0] == "Lit":
+            from fractions import Fraction
+            return RF.Rat.const(Fraction(str(n[3]).rstrip("fFlL")))
+        if n[0] == "Bin" and n[2] in "+-*/":
+            a, b = conv(n[3]), conv(n[4])
+            return a + b if n[2] == "+" else a - b if n[2] == "-" else a * b if n[2] == "*" else a / b
+        if n[0] == "Un" and n[2] == "-":
+            return -conv(n[3])
+        return RF.Rat.sym(sym(n))
+    adds = [c for c in T.calls(blk[3]) if T.callee_name(c) == "trxn_add" and len(c[4]) >= 2]
+    first = [c for c in adds if any(y[0] == "Member" and y[2] == "master::rxn_secondary" for y in T.walk(c[4][0]))]
+    if len(first) != 1:
+        R.anchor_missing(RULE, "the addition of rxn_secondary was not found exactly once in the REWRITE block")
+        return
+    c0 = conv(first[0][4][1])
+    ce = None
+    for x in T.walk(blk[3]):
+        if x[0] == "Bin" and x[2] == "=" and any(T.callee_name(c) == "rxn_find_coef" for c in T.calls(x[4])):
+            ce = sym(x[3])
+    if ce is None:
+        R.anchor_missing(RULE, "coef_e = rxn_find_coef(.., \"e-\") not found")
+        return
+    want = c0 * RF.Rat.sym(ce)
+    n = 0
+    for c in adds:
+        if c is first[0]:
+            continue
+        n += 1
+        inst = "couple@%d" % c[1]
+        try:
+            got = conv(c[4][1])
+        except Exception as e:
+            R.anchor_missing(RULE, "%s: multiplier `%s` is not a rational expression" % (inst, T.text(c[4][1])[:40]))
+            continue
+        if got.same(want):
+            R.ok(RULE, inst, "multiplier = (coefficient of the token) * coef_e")
+        else:
+            R.violation(RULE, inst, "the redox couple's reaction is added with multiplier `%s`; the rewritten master brought `%s * %s` electrons: only part of them is replaced, so "
+                        "species and phases with more than one atom of the element break their mass-action equation when the couple's pe differs from the solution pe"
+                        % (T.text(c[4][1])[:50], T.text(first[0][4][1])[:30], ce), line=c[1], **where)
+    if n < 2:
+        R.anchor_missing(RULE, "only %d additions of the couple's reaction found (found / not-yet-rewritten branches)" % n)
+    R.ok(RULE, "secondary@%d" % first[0][1], "rxn_secondary added with the token's coefficient")
+
+
 def run(P, R, tier):
+    rewrite_rule(P, R)
     R.undecided += ["mass-action residual of every aqueous species at the reported solution (numerical)",
                     "element totals, charge balance, ionic strength and alkalinity sums (numerical)",
                     "rewriting of reactions to primary/secondary master species; delta_h unit conversion"]
